@@ -9,7 +9,8 @@
 Require Import Arith Lia List Bool ZArith QArith Qcanon.
 From TK Require Import Mat_Sums Mat_Core Mat_Qc Mat_EigSelect EigSelect Mat_EigSelect_Tie
                        Lap_Model Lap_Spec Lap_Exec Lap_Proof_Lap Lap_Proof_Embed Lap_Proof_Dm
-                       Lap_Proof_Total Lap_Proof_Complete Lap_Proof_Order Lap_Proof_DmOrder Lap_Proof_Exec.
+                       Lap_Proof_Total Lap_Proof_Complete Lap_Proof_Order Lap_Proof_DmOrder Lap_Proof_Exec
+                       Lap_Proof_Method.
 Import ListNotations.
 Local Open Scope list_scope.
 Local Open Scope nat_scope.
@@ -598,3 +599,55 @@ Theorem Lap_eig_segment_table :
    forall N d skip, d + skip <= N -> eval_ops d skip N (b_vals b) = Some (skip, d)).
 Proof. exact eig_segment_table. Qed.
 Print Assumptions Lap_eig_segment_table.
+
+(* 24. METHOD level (methods/laplacian_eigenmaps.hpp embed()): the neighbour search is an oracle of the requested
+       num_neighbors; whatever was requested, the Laplacian handed to the solver is that of the FULL lists the
+       search returned (W holds a weight for EVERY entry of EVERY returned list), provided the lists have one
+       common length (the search's contract).  With check_connectivity the lists are longer than the request
+       whenever the requested-k graph is not strongly connected. *)
+Theorem Lap_method_full_lists :
+  forall (F : Type) (Fo : FieldOps F) (Ff : IsField F)
+         (dist : nat -> nat -> F) (width : F) (expo : F -> F)
+         (search : nat -> list (list nat)) (kreq n : nat) (ts : list (@triplet F)) (D : list F),
+    le_method_laplacian dist width expo search kreq n = LOk (ts, D) ->
+    uniform_lists (search kreq) n ->
+    let heat := heat_of dist width expo in
+    length D = n /\
+    (forall i q, i < n -> q < length (nth i (search kreq) []) -> nb_at (search kreq) i q < n) /\
+    (forall r c, r < n -> c < n -> mat_of_triplets ts r c = matL_full heat (search kreq) n r c) /\
+    (forall r, r < n -> nth r D 0%F = degD_full heat (search kreq) n r).
+Proof. exact @le_method_full_lists. Qed.
+Print Assumptions Lap_method_full_lists.
+
+Example Lap_method_full_lists_nonvacuous :
+  exists ts D,
+    le_method_laplacian reqk_dist (qz 1) reqk_expo reqk_search 1 4 = LOk (ts, D) /\
+    mat_of_triplets ts 0 2 = matL_full (heat_of reqk_dist (qz 1) reqk_expo) (reqk_search 1) 4 0 2 /\
+    mat_of_triplets ts 0 2 = qz (-2).
+Proof. exact le_method_full_lists_witness. Qed.
+
+(* regression (seeded change C09_1): a routine that takes the neighbour count as an argument builds the graph of
+   the first k entries of each list ... *)
+Theorem Lap_explicit_k_variant :
+  forall (F : Type) (Fo : FieldOps F) (Ff : IsField F)
+         (dist : nat -> nat -> F) (width : F) (expo : F -> F)
+         (k n : nat) (nbrs : list (list nat)) (ts : list (@triplet F)) (D : list F),
+    compute_laplacian_k dist width expo k n nbrs = LOk (ts, D) ->
+    let heat := heat_of dist width expo in
+    length D = n /\
+    (forall r c, r < n -> c < n -> mat_of_triplets ts r c = matL heat k nbrs n r c) /\
+    (forall r, r < n -> nth r D 0%F = degD heat k nbrs n r).
+Proof. exact @compute_laplacian_k_spec. Qed.
+Print Assumptions Lap_explicit_k_variant.
+
+(* ... so a method that feeds it the REQUESTED count does not build the Laplacian of the neighbourhood graph as
+   soon as the search raised k: witness with 4 samples, request 1, returned lists of length 2 *)
+Theorem Lap_method_requested_k_refuted :
+  exists (search : nat -> list (list nat)) (kreq n : nat) (ts : list (@triplet Qc)) (D : list Qc),
+    uniform_lists (search kreq) n /\
+    kreq < length (hd [] (search kreq)) /\
+    le_method_laplacian_reqk reqk_dist (qz 1) reqk_expo search kreq n = LOk (ts, D) /\
+    exists r c, r < n /\ c < n /\
+      mat_of_triplets ts r c <> matL_full (heat_of reqk_dist (qz 1) reqk_expo) (search kreq) n r c.
+Proof. exact le_method_reqk_refuted. Qed.
+Print Assumptions Lap_method_requested_k_refuted.
